@@ -37,44 +37,43 @@ Section Proofs.
   Variable hf : list X -> H.
   Variable ident : nat -> H.
 
-  (** Equal values hash equal: for a table that passes [hash_table_ok], two objects of the same class whose slots
-      read the same have the same hash (or are both unhashable) - whichever registers they live in. *)
+  (** Equal FROZEN values hash equal: for a table that passes [hash_table_ok], two objects of the same frozen class whose
+      slots read the same have the same hash (or are both unhashable) - whichever registers they live in. *)
   Theorem hash_same_value rows : hash_table_ok rows = true ->
-    forall c a b i j, same_value V X get c a b ->
+    forall c a b i j, frozen_class c = true -> same_value V X get c a b ->
       hash_of V X H get hf ident rows i (c, a) = hash_of V X H get hf ident rows j (c, b).
   Proof.
-    unfold hash_table_ok. intros Hok c a b i j Hs.
-    repeat (apply andb_prop in Hok; destruct Hok as [Hok ?]).
+    unfold hash_table_ok. intros Hok c a b i j Hfz Hs.
+    apply andb_prop in Hok. destruct Hok as [Hok _].
     rewrite forallb_forall in Hok. unfold hash_of; simpl.
     destruct (lookup c rows) as [k|] eqn:E; auto.
-    specialize (Hok _ (lookup_in _ _ _ E)). unfold hash_row_ok in Hok; simpl in Hok.
+    specialize (Hok _ (lookup_in _ _ _ E)). unfold hash_row_ok in Hok; simpl in Hok. rewrite Hfz in Hok.
     destruct k as [|l| |]; try discriminate; auto.
-    apply andb_prop in Hok. destruct Hok as [Hok _]. apply andb_prop in Hok. destruct Hok as [_ Hsub].
+    apply andb_prop in Hok. destruct Hok as [Hsub _].
     f_equal. f_equal. apply map_ext_in. intros s Hin. apply Hs. eapply subset_in; eauto.
   Qed.
 
-  (** a hashable class reads every slot: two objects that hash through [HSlots l] and differ in no slot of [l]
+  (** a hashable frozen class reads every slot: two objects that hash through [HSlots l] and differ in no slot of [l]
       differ in no slot of the family (so the hash cannot ignore a component) *)
   Theorem hash_reads_every_slot rows : hash_table_ok rows = true ->
-    forall c l, lookup c rows = Some (HSlots l) -> forall s, In s (family_slots c) -> In s l.
+    forall c l, frozen_class c = true -> lookup c rows = Some (HSlots l) -> forall s, In s (family_slots c) -> In s l.
   Proof.
-    unfold hash_table_ok. intros Hok c l E s Hin.
-    repeat (apply andb_prop in Hok; destruct Hok as [Hok ?]).
-    rewrite forallb_forall in Hok. specialize (Hok _ (lookup_in _ _ _ E)). unfold hash_row_ok in Hok; simpl in Hok.
+    unfold hash_table_ok. intros Hok c l Hfz E s Hin.
+    apply andb_prop in Hok. destruct Hok as [Hok _].
+    rewrite forallb_forall in Hok. specialize (Hok _ (lookup_in _ _ _ E)). unfold hash_row_ok in Hok; simpl in Hok. rewrite Hfz in Hok.
     apply andb_prop in Hok. destruct Hok as [_ Hsub]. eapply subset_in; eauto.
   Qed.
 
-  (** only frozen classes are hashable *)
-  Theorem hashable_is_frozen rows : hash_table_ok rows = true ->
+  (** only frozen classes are hashable - under the CONVENTIONS [hash_conventions], which C05 does not state (observation) *)
+  Theorem hashable_is_frozen rows : hash_conventions rows = true ->
     forall c i v h, hash_of V X H get hf ident rows i (c, v) = Some h -> frozen_class c = true.
   Proof.
-    unfold hash_table_ok. intros Hok c i v h.
+    unfold hash_conventions. intros Hok c i v h.
     repeat (apply andb_prop in Hok; destruct Hok as [Hok ?]).
     rewrite forallb_forall in Hok. unfold hash_of; simpl.
     destruct (lookup c rows) as [k|] eqn:E; try discriminate.
-    specialize (Hok _ (lookup_in _ _ _ E)). unfold hash_row_ok in Hok; simpl in Hok.
-    destruct k as [|l| |]; try discriminate. intros _.
-    apply andb_prop in Hok. destruct Hok as [Hok _]. apply andb_prop in Hok. destruct Hok as [Hf _]. exact Hf.
+    specialize (Hok _ (lookup_in _ _ _ E)). simpl in Hok.
+    destruct k as [|l| |]; try discriminate. intros _. exact Hok.
   Qed.
 
   (** The hash of a frozen object held across ANY history of public calls is the hash it had at the start
@@ -103,8 +102,16 @@ Proof. repeat split; try reflexivity. discriminate. Qed.
 Example hash_two_slots_refuted : hash_row_ok ("FrozenAngle", HSlots ["_pitch"; "_yaw"]) = false.
 Proof. reflexivity. Qed.
 
+(** the property is silent about a value that can change: an identity hash on a mutable class passes the table check
+    (and fails the conventions) *)
+Example hash_of_mutable_not_constrained :
+  hash_row_ok ("Matrix", HIdentity) = true /\ hash_conventions [("Matrix", HIdentity)] = false.
+Proof. split; reflexivity. Qed.
+
 (** today's shape satisfies the premise *)
 Example hash_table_satisfiable :
   hash_table_ok [("Vec", HUnhashable); ("FrozenVec", HSlots ["_x"; "_y"; "_z"]); ("Angle", HUnhashable);
+                 ("FrozenAngle", HSlots ["_pitch"; "_yaw"; "_roll"]); ("Matrix", HUnhashable); ("FrozenMatrix", HUnhashable)] = true
+  /\ hash_conventions [("Vec", HUnhashable); ("FrozenVec", HSlots ["_x"; "_y"; "_z"]); ("Angle", HUnhashable);
                  ("FrozenAngle", HSlots ["_pitch"; "_yaw"; "_roll"]); ("Matrix", HUnhashable); ("FrozenMatrix", HUnhashable)] = true.
-Proof. reflexivity. Qed.
+Proof. split; reflexivity. Qed.
